@@ -47,6 +47,16 @@ Proof.
 Qed.
 Print Assumptions triangles_prange_no_shared_write.
 
+(** Front ends, re-extracted from triangles.pyx on every run: count_triangles orients the SYMMETRISED matrix with get_dag's
+    default order (the node index - a total order, which is what [count_triangles_exact] needs; an order computed in a
+    fixed-width integer type can wrap for large graphs), and get_clustering_coefficient counts the connected triples from the
+    degrees of the symmetrised matrix in 64-bit integers (finding D37). *)
+Theorem triangles_front_ends :
+  triangles_dag_sources = ["get_dag(directed2undirected(adjacency))"]%string /\
+  coefficient_degree_sources = ["get_degrees(directed2undirected(adjacency)).astype(`int64`)"; "degrees[degrees>1]"]%string.
+Proof. split; reflexivity. Qed.
+Print Assumptions triangles_front_ends.
+
 (** count_triangles (= count_triangles_from_dag (get_dag (directed2undirected A))) equals the number of
     triples a < b < c that are pairwise adjacent in the undirected graph of A, for every pattern A
     (directed input, self-loops and duplicate entries included: "the graph is considered undirected"). *)
